@@ -1669,10 +1669,11 @@ class LoopExpression(Expression):
             length = max(length - offset, 0)
         elif offset is not None:
             assert isinstance(offset, int), f"found {offset!r}"
+            offset = max(offset, 0)
             length = max(length - offset, 0)
 
         if limit is not None:
-            length = min(length, limit)
+            length = min(length, max(limit, 0))
 
         stop = offset + length if offset else length
         context.stopindex(key=offset_key, index=stop)
